@@ -12,6 +12,7 @@
 from __future__ import annotations
 
 import ast
+import re
 
 from ..cfg import ENTRY, EXIT, header_parts
 from ..effects import FS_DELETE, FS_WRITE, USER_CALL
@@ -377,13 +378,56 @@ def rule_no_write(ctx: Ctx) -> None:  # noqa: C901, PLR0915
     ctx.add("3-no-write", prep, calls[0] if calls else prep.node, ok, "cleanup and storage are forwarded unchanged" if ok else "prepare_run does not forward cleanup/storage unchanged to RunInfo.create", key="forward-cleanup")
 
 
+def rule_unique_parameters(ctx: Ctx) -> None:
+    """A rename must not map a parameter onto the name of another parameter of the same function: the function would have two
+    parameters of one name (`parameters == ('b', 'b')`), be accepted into a pipeline, and only fail inside the user call."""
+    from ..flow import reach_rejections
+
+    vn = ctx.prog.func(f"{PF}._validate_names")
+    rj = reach_rejections(ctx, vn, depth=3)
+    conds = [c for r in rj for c in r["conds"]]
+    uniq = [c for c in conds if "parameters" in c and re.search(r"len\(set\(|Counter\(|\.count\(|duplic", c)]
+    about = [c for c in conds if "parameters" in c and re.search(r"len\(|Counter|count\(|duplic", c)]
+    ctx.tri("1-wired", vn, vn.node, bool(uniq), bool(rj) and not about, "duplicate parameter names (a rename onto an existing parameter) are rejected",
+            "no rejection of _validate_names compares the parameter names with their set: `renames={'a': 'b'}` on f(a, b) yields parameters ('b', 'b'), the function is accepted and fails only inside the user call",
+            "uniqueness test of the parameter names not recognised", key="unique-parameters")
+
+
+def rule_run_upfront(ctx: Ctx) -> None:
+    """pipeline(...) / Pipeline.run: surplus and missing keyword arguments are to be rejected before a user function runs.
+    Checked as: the test that guards the UnusedParametersError precedes (dominates) the evaluation, and the evaluation cannot be
+    entered with a missing argument.  (map() validates up front through prepare_run: rule 1.)"""
+    from ..flow import reach_rejections
+
+    P = ctx.prog
+    rn = P.func(f"{PL}.run")
+    cfg = ctx.cfg(rn)
+    execs = cfg.nodes(lambda s_: not isinstance(s_, (ast.If, ast.For, ast.While)) and any(isinstance(c, ast.Call) and norm(c.func).endswith("._run") for c in ast.walk(s_)))
+    rj = [r for r in reach_rejections(ctx, rn, depth=1) if "Unused" in norm(r["node"]) and r["fn"] is rn]
+    if not execs or not rj:
+        ctx.add("4-run-upfront", rn, rn.node, None, "UNDECIDED: evaluation call / surplus-keyword rejection not found in Pipeline.run", key="surplus-before-run")
+        return
+    # the `if` that decides the rejection (innermost enclosing one): where it stands relative to the evaluation
+    par = {id(c): p_ for p_ in ast.walk(rn.node) for c in ast.iter_child_nodes(p_)}
+    g: ast.AST = rj[0]["node"]
+    while id(g) in par and not isinstance(g, ast.If):
+        g = par[id(g)]
+    gnode = cfg.node(g) if isinstance(g, ast.If) else cfg.node(rj[0]["node"])
+    before = all(cfg.dominates(gnode, e) for e in execs)
+    after = all(cfg.dominates(e, gnode) for e in execs)
+    ctx.tri("4-run-upfront", rn, rj[0]["node"], before and not after, after, "surplus keyword arguments are rejected before the evaluation starts",
+            "Pipeline.run raises UnusedParametersError only AFTER the requested output was computed (and a missing argument only when the resolution reaches it): user functions have already run when the ill-formed call is rejected",
+            "order of the surplus-keyword rejection and the evaluation not recognised", key="surplus-before-run")
+
+
 def check(ctx: Ctx) -> None:
-    for rule in (rule_wired, rule_no_user, rule_no_write):
+    for rule in (rule_wired, rule_no_user, rule_no_write, rule_unique_parameters, rule_run_upfront):
         ctx.run(rule)
 
 
 B, PFF, PR, RIF = "pipefunc/_pipeline/_base.py", "pipefunc/_pipefunc.py", "pipefunc/map/_prepare.py", "pipefunc/map/_run_info.py"
 MUTANTS = [
+    Mutant("duplicate-parameters-F39", "pipefunc/_pipefunc.py", "        if len(set(self.parameters)) != len(self.parameters):\n", "        if False:\n", ("C12.1-wired",), why="original F39"),
     Mutant("defaults-none-as-absent", "pipefunc/_pipeline/_validation.py", "            if arg not in arg_defaults:\n                arg_defaults[arg] = default_value\n            elif default_value != arg_defaults[arg]:\n",
            "            if (known := arg_defaults.get(arg)) is None:\n                arg_defaults[arg] = default_value\n            elif default_value != known:\n", ("C12.1-wired",), why="round-2 seed C12/6"),
     Mutant("add-no-unique-check", B, "        validate_unique_output_names(f.output_name, self.output_to_func)\n", "", ("C12.1-wired",)),
